@@ -215,6 +215,18 @@ fn main() {
             }
             println!("{}", json!({"cases": cases.len(), "prop_mismatch": nprop, "model_drift": nmodel, "prop": prop, "model": model, "samples": samples, "counts": {"derive_panics": npanic}}));
         }
+        ("replay", "usage") | ("replay", "implbounds") => {
+            let cases = load_cases(&args[3]);
+            let mut prop: Vec<Value> = vec![];
+            let mut nprop = 0usize;
+            let mut samples: Vec<Value> = vec![];
+            for (i, c) in cases.iter().enumerate() {
+                let (o, tag) = if args[2] == "usage" { vh::usage::replay_type(c) } else { vh::usage::replay_bounds(c, i) };
+                if i % (cases.len() / 3).max(1) == 0 && samples.len() < 3 { samples.push(json!({"case": tag, "expect": c["expect"]})); }
+                if !o.prop.is_empty() { nprop += 1; if prop.len() < 60 { let mut w = o.prop; w.truncate(3); prop.push(json!({"case": c, "why": w, "key": format!("{}:{}", args[2], tag)})); } }
+            }
+            println!("{}", json!({"cases": cases.len(), "prop_mismatch": nprop, "model_drift": 0, "prop": prop, "model": [], "samples": samples}));
+        }
         ("record", "accum") => {
             let seed: u64 = args[3].parse().unwrap();
             let runs: usize = args[4].parse().unwrap();
